@@ -15,7 +15,7 @@ ASSUMPTIONS = ["virtual Tymer driven through a harness-owned tymth; MonoTimer dr
 
 TY_OPS = [("adv", 0.5), ("adv", 1.0), ("adv", 2.5), ("adv", 0.1), ("rew", 0.5), ("rew", 1.0),
           ("start", None, None), ("start", 1.0, None), ("start", 0.0, None), ("start", 0.1, None), ("start", None, 0.5),
-          ("start", 2.5, 3.0), ("restart", None), ("restart", 0.5)]
+          ("start", 2.5, 3.0), ("restart", None), ("restart", 0.5), ("wind", "same"), ("wind", "other")]
 MO_OPS = [("clk", 0.5), ("clk", 2.0), ("clk", -0.5), ("clk", -2.0), ("read", "exr"), ("read", "xre"), ("read", "rxe"),
           ("start", None), ("start", 1.0), ("restart",)]   # read: order in which elapsed / expired / remaining are read
 
@@ -32,9 +32,9 @@ def depths(tier):
 def RULE(tier):
     d = depths(tier)
     return ("every sequence of length <= %d over %d Tymer operations (advance/rewind tyme, start(duration?,start?), restart(duration?)) "
-            "with a read of elapsed/remaining/expired/duration after every step, compared float-exactly with a start/stop model "
+            "and wind(same or new tyme source) with a read of elapsed/remaining/expired/duration after every step, compared float-exactly with a start/stop model "
             "written from the statement; every sequence of length <= %d over %d MonoTimer/clock operations (clock +-d, read, start, "
-            "restart) for retro True and False, checking per period that elapsed never decreases and expired never reverts; plus a "
+            "restart) for retro True and False, checking per period that elapsed never decreases, expired never reverts and elapsed is 0 when read at the clock value the period was started at; plus a "
             "boundary sweep: %d non-dyadic starts x %d durations x {no restart, restart(), restart(d)} with tyme placed exactly on, "
             "one and two ulps below and above the stop and the start (12 points), same float-exact model - 'expired exactly when "
             "now >= stop' is decided at the last representable tyme before the stop. A case "
@@ -111,7 +111,14 @@ def run_tymer(seq, states=None):
     ms, me = 0.0, 0.0 + 1.0
     v = []
     for k, op in enumerate(seq):
-        if op[0] == "adv":
+        if op[0] == "wind":
+            # (re)wind to a tyme source - the one it already has, or an equivalent new closure: documented as "restarting at the
+            # new tymist time", i.e. start() at the current tyme with the current duration
+            d = me - ms
+            ms = now[0]
+            me = ms + d
+            tm.wind(tymth if op[1] == "same" else (lambda: now[0]))
+        elif op[0] == "adv":
             now[0] = now[0] + op[1]
         elif op[0] == "rew":
             now[0] = now[0] - op[1]
@@ -154,6 +161,17 @@ def run_mono(retro, seq, states=None):
             if op[0] == "start":
                 tm.start(duration=op[1])
                 last_el, was_exp = None, False
+                if k + 1 < len(seq) and seq[k + 1][0] == "read":      # read at the very clock value the period was started at
+                    try:
+                        el = tm.elapsed
+                    except timing.RetroTimerError:
+                        v.append(("mono:retrograde-reported-right-after-start:retro=%s" % retro, "RetroTimerError when elapsed is read at the "
+                                  "clock value the period was just started at, after %r" % (seq[:k + 1],)))
+                        break
+                    if el != 0.0:
+                        v.append(("mono:elapsed-not-zero-at-start:retro=%s" % retro, "elapsed is %r right after start() at the same clock "
+                                  "value, after %r" % (el, seq[:k + 1])))
+                        break
                 continue
             if op[0] == "restart":
                 tm.restart()
